@@ -27,20 +27,24 @@ import dataclasses
 from collections.abc import Callable
 from typing import Any
 
+from ..analysis import DefineUseAnalysis, Purity
 from ..ast.fpyast import (
+    Call,
     Expr,
     Fst,
+    IndexedAssign,
     Integer,
     ListComp,
     ListRef,
     NamedId,
     Snd,
     Stmt,
+    StmtBlock,
     TupleBinding,
     UnderscoreId,
     Var,
 )
-from ..ast.visitor import DefaultTransformVisitor
+from ..ast.visitor import DefaultTransformVisitor, DefaultVisitor
 from ..utils import Id
 from .utils import clone
 
@@ -104,6 +108,41 @@ def plan_for_zip(args: list[Expr], slot: Slot) -> Plan | None:
     if isinstance(slot, (NamedId, UnderscoreId)):
         return Plan(list(args), [slot], tupled=True)
     return None
+
+
+class _MayWrite(DefaultVisitor):
+    """Looks for anything that may write a list: an element store, or a call
+    that is not known to be pure."""
+
+    def __init__(self, def_use: DefineUseAnalysis):
+        self.def_use = def_use
+        self.found = False
+
+    def _visit_indexed_assign(self, stmt: IndexedAssign, ctx: Any):
+        self.found = True
+
+    def _visit_call(self, e: Call, ctx: Any):
+        # covers the arguments too
+        if not Purity.analyze_expr(e, self.def_use):
+            self.found = True
+
+
+def may_write(node: StmtBlock | Expr, def_use: DefineUseAnalysis) -> bool:
+    """Whether running *node* -- a loop body, or a comprehension -- may write
+    a list.
+
+    ``zip`` / ``enumerate`` build their tuples before the first iteration, while
+    the rewritten traversal reads ``src[i]`` when it gets there, so the two
+    agree only if nothing run in between writes a source.  Nothing here says
+    which lists a store or an impure call may reach, so any of them counts and
+    the iterable is left for the backend to materialize.
+    """
+    visitor = _MayWrite(def_use)
+    if isinstance(node, StmtBlock):
+        visitor._visit_block(node, None)
+    else:
+        visitor._visit_expr(node, None)
+    return visitor.found
 
 
 def is_access_path(e: Expr) -> bool:
